@@ -173,7 +173,15 @@ class USBControlEndpoint(Elaboratable):
             interface.handshakes_out.ack           .eq(setup_decoder.ack | request_handler.handshakes_out.ack),
             interface.handshakes_out.nak           .eq(request_handler.handshakes_out.nak),
             interface.handshakes_out.stall         .eq(request_handler.handshakes_out.stall),
-            interface.handshakes_in                .connect(request_handler.handshakes_in),
+            interface.handshakes_in                .connect(request_handler.handshakes_in, exclude=['ack']),
+
+            # A host ACK only concerns our request handlers when it answers data we sent, i.e. while the most
+            # recent token is an IN token for this endpoint. ACKs of other endpoints' (or other devices')
+            # transactions must not complete or advance a control request.
+            request_handler.handshakes_in.ack      .eq(
+                interface.handshakes_in.ack & interface.tokenizer.is_in &
+                (interface.tokenizer.endpoint == self._endpoint_number)
+            ),
 
             interface.address_changed              .eq(request_handler.address_changed),
             interface.new_address                  .eq(request_handler.new_address),
